@@ -672,6 +672,12 @@ def check_batch(ctx: Context, rep, rule: str) -> None:
                         com, e, "itertools.cycle"):
                     return frozenset(rec(e.args[0]) | {"cycled"}) if e.args \
                         else None
+                if isinstance(e, ast.Call) and ast.unparse(e.func).endswith(
+                        "chain.from_iterable") and len(e.args) == 1 and \
+                        isinstance(e.args[0], ast.Call) and ctx.is_call(
+                            com, e.args[0], "itertools.repeat") and len(
+                                e.args[0].args) == 1:
+                    return frozenset(rec(e.args[0].args[0]) | {"cycled"})
                 if isinstance(e, ast.Call) and ctx.is_call(
                         com, e, "itertools.shuffle_buffer"):
                     inner = rec(e.args[0]) if e.args else EMPTY
